@@ -70,6 +70,8 @@ func acquireFromHolder(len int) (uintptr, *[]byte, error) {
 		logger.Error("placeholder space usage overflow", placeHolderIns.count, "hook functions")
 		return 0, nil, errSpaceOverflow
 	}
+	// 并发场景下, 必须以原子加的结果来确定本次分配的起始位置, 否则多个协程会拿到同一段空间
+	placeholder = newOffset - uintptr(len)
 
 	bytes := (*[]byte)(unsafe.Pointer(&reflect.SliceHeader{
 		Data: placeholder,
